@@ -66,6 +66,7 @@ def outcomeStr : Outcome → String
   | .ok => "1"
   | .full => "E:runtime"
   | .badAlloc => "E:throw"
+  | .invalid => "E:invalid_argument"
 
 def resStr : Res → String
   | .done o => outcomeStr o
